@@ -13,12 +13,14 @@
     the whole export);
   * the FULL statements — the seven executable predicates of `ExportSpec` hold of `exportModule s` for every
     valid module-rooted store — are kept as `def … : Prop` below (`Faithful…`).  They additionally need
-    (a) the lifting of the per-call facts along the parallel walk `mirrorModule`, and (b) that the partition
-    computed by `classes` is the connected-component partition of the port graph; neither is proved.
+    (a) the lifting of the per-call facts along the parallel walk `mirrorModule`, and (b) that the executable
+    closure `ExportSpec.component` computes the relation `Conn` (joined by edges, transitively) for which the
+    naming theorem `linkName_eq_iff_connected` is proved; neither is proved.
     They are DECIDED PER PROGRAM: the driver evaluates the predicates on the model's module and on the
     implementation's module for every generated HUGR (`spec_model`, `spec` in the reply).
 -/
 import HugrVerif.Proofs.Export
+import HugrVerif.Proofs.ExportClasses
 import HugrVerif.Gen.ModelAttrs
 
 namespace HugrVerif.Props.C12
@@ -46,6 +48,22 @@ theorem linkName_eq_iff (cs : Classes) (st : Names) (h : NamesInv st) (p q : DPo
     (st2 : Names) (hext : Extends (linkName cs st p).2 st2) (h2 : NamesInv st2) :
     (linkName cs st2 q).1 = (linkName cs st p).1 ↔ rep cs q = rep cs p :=
   linkName_eq_iff_rep cs st h p q st2 hext h2
+
+/-- **The union-find abstraction is the component partition**: after `for a, b in hugr.links(): union(a, b)`
+    two ports have the same root iff edges of the HUGR join them, transitively (`Conn`). -/
+theorem partition_is_components (links : List (Port × Port)) (p q : DPort) :
+    rep (classes links) p = rep (classes links) q ↔ Conn links p q := rep_eq_iff_conn links p q
+
+/-- **LinkFaithful for `link_name`**: two calls of one export run return the same name iff an edge of the
+    HUGR joins the two ports (transitively). -/
+theorem linkName_eq_iff_connected (links : List (Port × Port)) (st : Names) (h : NamesInv st) (p q : DPort)
+    (st2 : Names) (hext : Extends (linkName (classes links) st p).2 st2) (h2 : NamesInv st2) :
+    (linkName (classes links) st2 q).1 = (linkName (classes links) st p).1 ↔ Conn links q p :=
+  (linkName_eq_iff_rep _ st h p q st2 hext h2).trans (rep_eq_iff_conn links q p)
+
+-- (`NoHyperedge` is a consequence for valid HUGRs only — one source per in-port outside CFGs — and is decided
+-- per program, not claimed here.)
+example : Conn [((1, 0), (2, 0))] ⟨.out, 1, 0⟩ ⟨.inc, 2, 0⟩ := Conn.link (l := ((1, 0), (2, 0))) (by simp)
 
 example : NamesInv [] := namesInv_nil
 example : Extends (linkName [] [] (inPort 1 0)).2 (linkName [] [] (inPort 1 0)).2 := Extends.refl _
